@@ -941,3 +941,42 @@ async fn d24_failed_open_leaks_the_directory_lock() {
 	let r2 = Tree::new(Arc::clone(&opts));
 	assert!(r2.is_ok(), "D24: directory still locked after a FAILED open: {:?}", r2.err());
 }
+
+// D25: redistribute_leaf_from_left/right replace a separator key in the parent but keep the OLD separator's overflow
+// pointer: with keys long enough to need overflow in internal nodes, the parent is persisted with the new key's on-page
+// prefix + the old key's overflow tail.  Everything works from the node cache; after close + reopen lookups go wrong.
+#[test]
+fn d25_bptree_separator_overflow_is_stale_after_redistribution() {
+	use crate::bplustree::tree::BPlusTree;
+	use crate::BytewiseComparator;
+	let dir = td();
+	let path = dir.path().join("idx.bpt");
+	// 1406-byte keys that differ only in the last 6 bytes: separators need an overflow page in internal nodes
+	let key = |i: usize| {
+		let mut k = vec![b'k'; 1400];
+		k.extend_from_slice(format!("{i:06}").as_bytes());
+		k
+	};
+	let n = 200usize;
+	let mut live = std::collections::BTreeSet::new();
+	{
+		let mut t = BPlusTree::disk(&path, Arc::new(BytewiseComparator::default())).unwrap();
+		for i in 0..n {
+			t.insert(key(i), format!("v{i}").as_bytes()).unwrap();
+			live.insert(i);
+		}
+		// interleaved deletes force underflows -> redistributions between sibling leaves
+		for i in (0..n).filter(|i| i % 3 != 0) {
+			t.delete(&key(i)).unwrap();
+			live.remove(&i);
+		}
+		for &i in &live {
+			assert!(t.get(&key(i)).unwrap().is_some(), "precondition: key {i} readable before reopen");
+		}
+		t.flush().unwrap();
+		t.close().unwrap();
+	}
+	let t = BPlusTree::disk(&path, Arc::new(BytewiseComparator::default())).unwrap();
+	let missing: Vec<usize> = live.iter().copied().filter(|&i| t.get(&key(i)).unwrap().is_none()).collect();
+	assert!(missing.is_empty(), "D25: {} of {} surviving keys are not found after reopen: {:?}", missing.len(), live.len(), &missing[..missing.len().min(8)]);
+}
